@@ -69,7 +69,8 @@ theorem torn_manifest (crc : List Nat → Nat) (hcrc : CrcOk crc) (es : List Edi
 theorem maniAlgebra_lawful : Lawful maniAlgebra := Blue.Mani.maniAlgebra_lawful
 
 /-- **crash**: for every history of edits and rollovers (any rollover ratio: a rollover may follow
-    any edit), every crash point among append / sync / link / unlink / write / sync / rename and
+    any edit — as a call of its own, `Client.rollover`, or inside the `apply` that crossed the ratio,
+    `Client.editRoll`, which returns only after the rename, as the real system-call trace shows), every crash point among append / sync / link / unlink / write / sync / rename and
     both persistence models, reopening yields the state after a prefix of the applied edits that
     contains every edit whose call had returned -/
 theorem crash_recover {St E : Type} (A : Algebra St E) (hlaw : Lawful A) (h : List (Client E)) (fs : Fs E)
